@@ -501,6 +501,7 @@ impl World {
         self.cases.entry("interleavings".into()).or_default().insert(il);
         self.bump_by("probe.par.thread-switches", gate.switches() as u64);
         self.bump_by("probe.par.forced-handover", gate.forced() as u64);
+        self.bump_by("probe.par.try-lock-found-taken", gate.injected() as u64);
         if n == 2 {
             Ok(json!({"a": results[0], "b": results[1], "switches": gate.switches()}))
         } else {
